@@ -1,3 +1,638 @@
-namespace WaVerif.C02
-theorem c02_placeholder : True := trivial
-end WaVerif.C02
+import WaVerif.Model.C02Spec
+import WaVerif.Gen.C02Templates
+import WaVerif.Lemmas.C02Tac
+set_option linter.unusedSimpArgs false
+set_option linter.unusedVariables false
+set_option maxRecDepth 4000
+/-! One theorem per row of the regenerated x86-64 template table (statement fixed by the instruction name). -/
+namespace WaVerif.C02.Rows
+open WaVerif WaVerif.X64 WaVerif.C02 WaVerif.Gen.C02
+
+theorem i32_add_ok : BinRow32 .add i32_add := by
+  refine ⟨by decide, ?_⟩
+  intro s
+  obtain ⟨rax, rcx, rdx, rbx, rsi, rdi, r8, r9, r10, r11, r12, r13, r14, r15, flags, slots, stk⟩ := s
+  unfold i32_add
+  x64_simp
+  x64_finish
+
+theorem i32_sub_ok : BinRow32 .sub i32_sub := by
+  refine ⟨by decide, ?_⟩
+  intro s
+  obtain ⟨rax, rcx, rdx, rbx, rsi, rdi, r8, r9, r10, r11, r12, r13, r14, r15, flags, slots, stk⟩ := s
+  unfold i32_sub
+  x64_simp
+  x64_finish
+
+theorem i32_mul_ok : BinRow32 .mul i32_mul := by
+  refine ⟨by decide, ?_⟩
+  intro s
+  obtain ⟨rax, rcx, rdx, rbx, rsi, rdi, r8, r9, r10, r11, r12, r13, r14, r15, flags, slots, stk⟩ := s
+  unfold i32_mul
+  x64_simp
+  x64_finish
+
+theorem i32_div_s_ok : BinRow32 .div_s i32_div_s := by
+  refine ⟨by decide, ?_⟩
+  intro s
+  by_cases hd : BitVec.setWidth 32 (s.slots i32_div_s.y) = 0#32
+  · obtain ⟨rax, rcx, rdx, rbx, rsi, rdi, r8, r9, r10, r11, r12, r13, r14, r15, flags, slots, stk⟩ := s
+    simp only [i32_div_s] at hd
+    unfold i32_div_s
+    x64_simp
+    simp [hd]
+    x64_finish
+
+  · by_cases hov : BitVec.setWidth 32 (s.slots i32_div_s.x) = BitVec.intMin 32 ∧ BitVec.setWidth 32 (s.slots i32_div_s.y) = 4294967295#32
+    · obtain ⟨rax, rcx, rdx, rbx, rsi, rdi, r8, r9, r10, r11, r12, r13, r14, r15, flags, slots, stk⟩ := s
+      simp only [i32_div_s] at hd hov
+      unfold i32_div_s
+      x64_simp
+      simp [hd, hov]
+      x64_finish
+
+    · obtain ⟨rax, rcx, rdx, rbx, rsi, rdi, r8, r9, r10, r11, r12, r13, r14, r15, flags, slots, stk⟩ := s
+      simp only [i32_div_s] at hd hov
+      unfold i32_div_s
+      x64_simp
+      simp [hd, hov]
+      x64_finish
+
+theorem i32_div_u_ok : BinRow32 .div_u i32_div_u := by
+  refine ⟨by decide, ?_⟩
+  intro s
+  by_cases hd : BitVec.setWidth 32 (s.slots i32_div_u.y) = 0#32
+  · obtain ⟨rax, rcx, rdx, rbx, rsi, rdi, r8, r9, r10, r11, r12, r13, r14, r15, flags, slots, stk⟩ := s
+    simp only [i32_div_u] at hd
+    unfold i32_div_u
+    x64_simp
+    simp [hd]
+    x64_finish
+
+  · obtain ⟨rax, rcx, rdx, rbx, rsi, rdi, r8, r9, r10, r11, r12, r13, r14, r15, flags, slots, stk⟩ := s
+    simp only [i32_div_u] at hd
+    unfold i32_div_u
+    x64_simp
+    simp [hd]
+    x64_finish
+
+def i32_rem_s_Statement : Prop := BinRow32 .rem_s i32_rem_s
+theorem i32_rem_s_partial : BinRow32ExceptMinInt .rem_s i32_rem_s := by
+  refine ⟨by decide, ?_⟩
+  intro s
+  intro hov
+  simp only [lo32] at hov
+  by_cases hd : BitVec.setWidth 32 (s.slots i32_rem_s.y) = 0#32
+  · obtain ⟨rax, rcx, rdx, rbx, rsi, rdi, r8, r9, r10, r11, r12, r13, r14, r15, flags, slots, stk⟩ := s
+    simp only [i32_rem_s] at hd hov
+    unfold i32_rem_s
+    x64_simp
+    simp [hd, hov]
+    x64_finish
+
+  · obtain ⟨rax, rcx, rdx, rbx, rsi, rdi, r8, r9, r10, r11, r12, r13, r14, r15, flags, slots, stk⟩ := s
+    simp only [i32_rem_s] at hd hov
+    unfold i32_rem_s
+    x64_simp
+    simp [hd, hov]
+    x64_finish
+
+/-- `idiv` raises #DE on MinInt %% -1 where WebAssembly's rem_s yields 0 -/
+theorem i32_rem_s_full_false : ¬ i32_rem_s_Statement := by
+  intro h
+  have h1 := h.2 (witnessState i32_rem_s 2147483648#64 4294967295#64)
+  revert h1
+  unfold i32_rem_s witnessState
+  x64_simp
+
+theorem i32_rem_s_witness_faults : X64.run i32_rem_s.code (witnessState i32_rem_s 2147483648#64 4294967295#64) = none := by
+  unfold i32_rem_s witnessState
+  x64_simp
+
+theorem i32_rem_u_ok : BinRow32 .rem_u i32_rem_u := by
+  refine ⟨by decide, ?_⟩
+  intro s
+  by_cases hd : BitVec.setWidth 32 (s.slots i32_rem_u.y) = 0#32
+  · obtain ⟨rax, rcx, rdx, rbx, rsi, rdi, r8, r9, r10, r11, r12, r13, r14, r15, flags, slots, stk⟩ := s
+    simp only [i32_rem_u] at hd
+    unfold i32_rem_u
+    x64_simp
+    simp [hd]
+    x64_finish
+
+  · obtain ⟨rax, rcx, rdx, rbx, rsi, rdi, r8, r9, r10, r11, r12, r13, r14, r15, flags, slots, stk⟩ := s
+    simp only [i32_rem_u] at hd
+    unfold i32_rem_u
+    x64_simp
+    simp [hd]
+    x64_finish
+
+theorem i32_and_ok : BinRow32 .and i32_and := by
+  refine ⟨by decide, ?_⟩
+  intro s
+  obtain ⟨rax, rcx, rdx, rbx, rsi, rdi, r8, r9, r10, r11, r12, r13, r14, r15, flags, slots, stk⟩ := s
+  unfold i32_and
+  x64_simp
+  x64_finish
+
+theorem i32_or_ok : BinRow32 .or i32_or := by
+  refine ⟨by decide, ?_⟩
+  intro s
+  obtain ⟨rax, rcx, rdx, rbx, rsi, rdi, r8, r9, r10, r11, r12, r13, r14, r15, flags, slots, stk⟩ := s
+  unfold i32_or
+  x64_simp
+  x64_finish
+
+theorem i32_xor_ok : BinRow32 .xor i32_xor := by
+  refine ⟨by decide, ?_⟩
+  intro s
+  obtain ⟨rax, rcx, rdx, rbx, rsi, rdi, r8, r9, r10, r11, r12, r13, r14, r15, flags, slots, stk⟩ := s
+  unfold i32_xor
+  x64_simp
+  x64_finish
+
+theorem i32_shl_ok : BinRow32 .shl i32_shl := by
+  refine ⟨by decide, ?_⟩
+  intro s
+  obtain ⟨rax, rcx, rdx, rbx, rsi, rdi, r8, r9, r10, r11, r12, r13, r14, r15, flags, slots, stk⟩ := s
+  unfold i32_shl
+  x64_simp
+  x64_finish
+
+theorem i32_shr_s_ok : BinRow32 .shr_s i32_shr_s := by
+  refine ⟨by decide, ?_⟩
+  intro s
+  obtain ⟨rax, rcx, rdx, rbx, rsi, rdi, r8, r9, r10, r11, r12, r13, r14, r15, flags, slots, stk⟩ := s
+  unfold i32_shr_s
+  x64_simp
+  x64_finish
+
+theorem i32_shr_u_ok : BinRow32 .shr_u i32_shr_u := by
+  refine ⟨by decide, ?_⟩
+  intro s
+  obtain ⟨rax, rcx, rdx, rbx, rsi, rdi, r8, r9, r10, r11, r12, r13, r14, r15, flags, slots, stk⟩ := s
+  unfold i32_shr_u
+  x64_simp
+  x64_finish
+
+theorem i32_rotl_ok : BinRow32 .rotl i32_rotl := by
+  refine ⟨by decide, ?_⟩
+  intro s
+  obtain ⟨rax, rcx, rdx, rbx, rsi, rdi, r8, r9, r10, r11, r12, r13, r14, r15, flags, slots, stk⟩ := s
+  unfold i32_rotl
+  x64_simp
+  x64_finish
+
+theorem i32_rotr_ok : BinRow32 .rotr i32_rotr := by
+  refine ⟨by decide, ?_⟩
+  intro s
+  obtain ⟨rax, rcx, rdx, rbx, rsi, rdi, r8, r9, r10, r11, r12, r13, r14, r15, flags, slots, stk⟩ := s
+  unfold i32_rotr
+  x64_simp
+  x64_finish
+
+theorem i32_eq_ok : RelRow32 .eq i32_eq := by
+  refine ⟨by decide, ?_⟩
+  intro s
+  obtain ⟨rax, rcx, rdx, rbx, rsi, rdi, r8, r9, r10, r11, r12, r13, r14, r15, flags, slots, stk⟩ := s
+  unfold i32_eq
+  x64_simp
+  x64_finish
+
+theorem i32_ne_ok : RelRow32 .ne i32_ne := by
+  refine ⟨by decide, ?_⟩
+  intro s
+  obtain ⟨rax, rcx, rdx, rbx, rsi, rdi, r8, r9, r10, r11, r12, r13, r14, r15, flags, slots, stk⟩ := s
+  unfold i32_ne
+  x64_simp
+  x64_finish
+
+theorem i32_lt_s_ok : RelRow32 .lt_s i32_lt_s := by
+  refine ⟨by decide, ?_⟩
+  intro s
+  obtain ⟨rax, rcx, rdx, rbx, rsi, rdi, r8, r9, r10, r11, r12, r13, r14, r15, flags, slots, stk⟩ := s
+  unfold i32_lt_s
+  x64_simp
+  x64_finish
+
+theorem i32_lt_u_ok : RelRow32 .lt_u i32_lt_u := by
+  refine ⟨by decide, ?_⟩
+  intro s
+  obtain ⟨rax, rcx, rdx, rbx, rsi, rdi, r8, r9, r10, r11, r12, r13, r14, r15, flags, slots, stk⟩ := s
+  unfold i32_lt_u
+  x64_simp
+  x64_finish
+
+theorem i32_gt_s_ok : RelRow32 .gt_s i32_gt_s := by
+  refine ⟨by decide, ?_⟩
+  intro s
+  obtain ⟨rax, rcx, rdx, rbx, rsi, rdi, r8, r9, r10, r11, r12, r13, r14, r15, flags, slots, stk⟩ := s
+  unfold i32_gt_s
+  x64_simp
+  x64_finish
+
+theorem i32_gt_u_ok : RelRow32 .gt_u i32_gt_u := by
+  refine ⟨by decide, ?_⟩
+  intro s
+  obtain ⟨rax, rcx, rdx, rbx, rsi, rdi, r8, r9, r10, r11, r12, r13, r14, r15, flags, slots, stk⟩ := s
+  unfold i32_gt_u
+  x64_simp
+  x64_finish
+
+theorem i32_le_s_ok : RelRow32 .le_s i32_le_s := by
+  refine ⟨by decide, ?_⟩
+  intro s
+  obtain ⟨rax, rcx, rdx, rbx, rsi, rdi, r8, r9, r10, r11, r12, r13, r14, r15, flags, slots, stk⟩ := s
+  unfold i32_le_s
+  x64_simp
+  x64_finish
+
+theorem i32_le_u_ok : RelRow32 .le_u i32_le_u := by
+  refine ⟨by decide, ?_⟩
+  intro s
+  obtain ⟨rax, rcx, rdx, rbx, rsi, rdi, r8, r9, r10, r11, r12, r13, r14, r15, flags, slots, stk⟩ := s
+  unfold i32_le_u
+  x64_simp
+  x64_finish
+
+theorem i32_ge_s_ok : RelRow32 .ge_s i32_ge_s := by
+  refine ⟨by decide, ?_⟩
+  intro s
+  obtain ⟨rax, rcx, rdx, rbx, rsi, rdi, r8, r9, r10, r11, r12, r13, r14, r15, flags, slots, stk⟩ := s
+  unfold i32_ge_s
+  x64_simp
+  x64_finish
+
+theorem i32_ge_u_ok : RelRow32 .ge_u i32_ge_u := by
+  refine ⟨by decide, ?_⟩
+  intro s
+  obtain ⟨rax, rcx, rdx, rbx, rsi, rdi, r8, r9, r10, r11, r12, r13, r14, r15, flags, slots, stk⟩ := s
+  unfold i32_ge_u
+  x64_simp
+  x64_finish
+
+theorem i32_eqz_ok : EqzRow32 i32_eqz := by
+  intro s
+  obtain ⟨rax, rcx, rdx, rbx, rsi, rdi, r8, r9, r10, r11, r12, r13, r14, r15, flags, slots, stk⟩ := s
+  unfold i32_eqz
+  x64_simp
+  x64_finish
+
+theorem i32_clz_ok : UnRow32 .clz i32_clz := by
+  intro s
+  obtain ⟨rax, rcx, rdx, rbx, rsi, rdi, r8, r9, r10, r11, r12, r13, r14, r15, flags, slots, stk⟩ := s
+  unfold i32_clz
+  x64_simp
+  x64_finish
+
+theorem i32_ctz_ok : UnRow32 .ctz i32_ctz := by
+  intro s
+  obtain ⟨rax, rcx, rdx, rbx, rsi, rdi, r8, r9, r10, r11, r12, r13, r14, r15, flags, slots, stk⟩ := s
+  unfold i32_ctz
+  x64_simp
+  x64_finish
+
+theorem i32_popcnt_ok : UnRow32 .popcnt i32_popcnt := by
+  intro s
+  obtain ⟨rax, rcx, rdx, rbx, rsi, rdi, r8, r9, r10, r11, r12, r13, r14, r15, flags, slots, stk⟩ := s
+  unfold i32_popcnt
+  x64_simp
+  x64_finish
+
+theorem i64_add_ok : BinRow64 .add i64_add := by
+  refine ⟨by decide, ?_⟩
+  intro s
+  obtain ⟨rax, rcx, rdx, rbx, rsi, rdi, r8, r9, r10, r11, r12, r13, r14, r15, flags, slots, stk⟩ := s
+  unfold i64_add
+  x64_simp
+  x64_finish
+
+theorem i64_sub_ok : BinRow64 .sub i64_sub := by
+  refine ⟨by decide, ?_⟩
+  intro s
+  obtain ⟨rax, rcx, rdx, rbx, rsi, rdi, r8, r9, r10, r11, r12, r13, r14, r15, flags, slots, stk⟩ := s
+  unfold i64_sub
+  x64_simp
+  x64_finish
+
+theorem i64_mul_ok : BinRow64 .mul i64_mul := by
+  refine ⟨by decide, ?_⟩
+  intro s
+  obtain ⟨rax, rcx, rdx, rbx, rsi, rdi, r8, r9, r10, r11, r12, r13, r14, r15, flags, slots, stk⟩ := s
+  unfold i64_mul
+  x64_simp
+  x64_finish
+
+theorem i64_div_s_ok : BinRow64 .div_s i64_div_s := by
+  refine ⟨by decide, ?_⟩
+  intro s
+  by_cases hd : s.slots i64_div_s.y = 0#64
+  · obtain ⟨rax, rcx, rdx, rbx, rsi, rdi, r8, r9, r10, r11, r12, r13, r14, r15, flags, slots, stk⟩ := s
+    simp only [i64_div_s] at hd
+    unfold i64_div_s
+    x64_simp
+    simp [hd]
+    x64_finish
+
+  · by_cases hov : s.slots i64_div_s.x = BitVec.intMin 64 ∧ s.slots i64_div_s.y = 18446744073709551615#64
+    · obtain ⟨rax, rcx, rdx, rbx, rsi, rdi, r8, r9, r10, r11, r12, r13, r14, r15, flags, slots, stk⟩ := s
+      simp only [i64_div_s] at hd hov
+      unfold i64_div_s
+      x64_simp
+      simp [hd, hov]
+      x64_finish
+
+    · obtain ⟨rax, rcx, rdx, rbx, rsi, rdi, r8, r9, r10, r11, r12, r13, r14, r15, flags, slots, stk⟩ := s
+      simp only [i64_div_s] at hd hov
+      unfold i64_div_s
+      x64_simp
+      simp [hd, hov]
+      x64_finish
+
+theorem i64_div_u_ok : BinRow64 .div_u i64_div_u := by
+  refine ⟨by decide, ?_⟩
+  intro s
+  by_cases hd : s.slots i64_div_u.y = 0#64
+  · obtain ⟨rax, rcx, rdx, rbx, rsi, rdi, r8, r9, r10, r11, r12, r13, r14, r15, flags, slots, stk⟩ := s
+    simp only [i64_div_u] at hd
+    unfold i64_div_u
+    x64_simp
+    simp [hd]
+    x64_finish
+
+  · obtain ⟨rax, rcx, rdx, rbx, rsi, rdi, r8, r9, r10, r11, r12, r13, r14, r15, flags, slots, stk⟩ := s
+    simp only [i64_div_u] at hd
+    unfold i64_div_u
+    x64_simp
+    simp [hd]
+    x64_finish
+
+def i64_rem_s_Statement : Prop := BinRow64 .rem_s i64_rem_s
+theorem i64_rem_s_partial : BinRow64ExceptMinInt .rem_s i64_rem_s := by
+  refine ⟨by decide, ?_⟩
+  intro s
+  intro hov
+  simp only [lo32] at hov
+  by_cases hd : s.slots i64_rem_s.y = 0#64
+  · obtain ⟨rax, rcx, rdx, rbx, rsi, rdi, r8, r9, r10, r11, r12, r13, r14, r15, flags, slots, stk⟩ := s
+    simp only [i64_rem_s] at hd hov
+    unfold i64_rem_s
+    x64_simp
+    simp [hd, hov]
+    x64_finish
+
+  · obtain ⟨rax, rcx, rdx, rbx, rsi, rdi, r8, r9, r10, r11, r12, r13, r14, r15, flags, slots, stk⟩ := s
+    simp only [i64_rem_s] at hd hov
+    unfold i64_rem_s
+    x64_simp
+    simp [hd, hov]
+    x64_finish
+
+/-- `idiv` raises #DE on MinInt %% -1 where WebAssembly's rem_s yields 0 -/
+theorem i64_rem_s_full_false : ¬ i64_rem_s_Statement := by
+  intro h
+  have h1 := h.2 (witnessState i64_rem_s 9223372036854775808#64 18446744073709551615#64)
+  revert h1
+  unfold i64_rem_s witnessState
+  x64_simp
+
+theorem i64_rem_s_witness_faults : X64.run i64_rem_s.code (witnessState i64_rem_s 9223372036854775808#64 18446744073709551615#64) = none := by
+  unfold i64_rem_s witnessState
+  x64_simp
+
+theorem i64_rem_u_ok : BinRow64 .rem_u i64_rem_u := by
+  refine ⟨by decide, ?_⟩
+  intro s
+  by_cases hd : s.slots i64_rem_u.y = 0#64
+  · obtain ⟨rax, rcx, rdx, rbx, rsi, rdi, r8, r9, r10, r11, r12, r13, r14, r15, flags, slots, stk⟩ := s
+    simp only [i64_rem_u] at hd
+    unfold i64_rem_u
+    x64_simp
+    simp [hd]
+    x64_finish
+
+  · obtain ⟨rax, rcx, rdx, rbx, rsi, rdi, r8, r9, r10, r11, r12, r13, r14, r15, flags, slots, stk⟩ := s
+    simp only [i64_rem_u] at hd
+    unfold i64_rem_u
+    x64_simp
+    simp [hd]
+    x64_finish
+
+theorem i64_and_ok : BinRow64 .and i64_and := by
+  refine ⟨by decide, ?_⟩
+  intro s
+  obtain ⟨rax, rcx, rdx, rbx, rsi, rdi, r8, r9, r10, r11, r12, r13, r14, r15, flags, slots, stk⟩ := s
+  unfold i64_and
+  x64_simp
+  x64_finish
+
+theorem i64_or_ok : BinRow64 .or i64_or := by
+  refine ⟨by decide, ?_⟩
+  intro s
+  obtain ⟨rax, rcx, rdx, rbx, rsi, rdi, r8, r9, r10, r11, r12, r13, r14, r15, flags, slots, stk⟩ := s
+  unfold i64_or
+  x64_simp
+  x64_finish
+
+theorem i64_xor_ok : BinRow64 .xor i64_xor := by
+  refine ⟨by decide, ?_⟩
+  intro s
+  obtain ⟨rax, rcx, rdx, rbx, rsi, rdi, r8, r9, r10, r11, r12, r13, r14, r15, flags, slots, stk⟩ := s
+  unfold i64_xor
+  x64_simp
+  x64_finish
+
+theorem i64_shl_ok : BinRow64 .shl i64_shl := by
+  refine ⟨by decide, ?_⟩
+  intro s
+  obtain ⟨rax, rcx, rdx, rbx, rsi, rdi, r8, r9, r10, r11, r12, r13, r14, r15, flags, slots, stk⟩ := s
+  unfold i64_shl
+  x64_simp
+  x64_finish
+
+theorem i64_shr_s_ok : BinRow64 .shr_s i64_shr_s := by
+  refine ⟨by decide, ?_⟩
+  intro s
+  obtain ⟨rax, rcx, rdx, rbx, rsi, rdi, r8, r9, r10, r11, r12, r13, r14, r15, flags, slots, stk⟩ := s
+  unfold i64_shr_s
+  x64_simp
+  x64_finish
+
+theorem i64_shr_u_ok : BinRow64 .shr_u i64_shr_u := by
+  refine ⟨by decide, ?_⟩
+  intro s
+  obtain ⟨rax, rcx, rdx, rbx, rsi, rdi, r8, r9, r10, r11, r12, r13, r14, r15, flags, slots, stk⟩ := s
+  unfold i64_shr_u
+  x64_simp
+  x64_finish
+
+theorem i64_rotl_ok : BinRow64 .rotl i64_rotl := by
+  refine ⟨by decide, ?_⟩
+  intro s
+  obtain ⟨rax, rcx, rdx, rbx, rsi, rdi, r8, r9, r10, r11, r12, r13, r14, r15, flags, slots, stk⟩ := s
+  unfold i64_rotl
+  x64_simp
+  x64_finish
+
+theorem i64_rotr_ok : BinRow64 .rotr i64_rotr := by
+  refine ⟨by decide, ?_⟩
+  intro s
+  obtain ⟨rax, rcx, rdx, rbx, rsi, rdi, r8, r9, r10, r11, r12, r13, r14, r15, flags, slots, stk⟩ := s
+  unfold i64_rotr
+  x64_simp
+  x64_finish
+
+theorem i64_eq_ok : RelRow64 .eq i64_eq := by
+  refine ⟨by decide, ?_⟩
+  intro s
+  obtain ⟨rax, rcx, rdx, rbx, rsi, rdi, r8, r9, r10, r11, r12, r13, r14, r15, flags, slots, stk⟩ := s
+  unfold i64_eq
+  x64_simp
+  x64_finish
+
+theorem i64_ne_ok : RelRow64 .ne i64_ne := by
+  refine ⟨by decide, ?_⟩
+  intro s
+  obtain ⟨rax, rcx, rdx, rbx, rsi, rdi, r8, r9, r10, r11, r12, r13, r14, r15, flags, slots, stk⟩ := s
+  unfold i64_ne
+  x64_simp
+  x64_finish
+
+theorem i64_lt_s_ok : RelRow64 .lt_s i64_lt_s := by
+  refine ⟨by decide, ?_⟩
+  intro s
+  obtain ⟨rax, rcx, rdx, rbx, rsi, rdi, r8, r9, r10, r11, r12, r13, r14, r15, flags, slots, stk⟩ := s
+  unfold i64_lt_s
+  x64_simp
+  x64_finish
+
+theorem i64_lt_u_ok : RelRow64 .lt_u i64_lt_u := by
+  refine ⟨by decide, ?_⟩
+  intro s
+  obtain ⟨rax, rcx, rdx, rbx, rsi, rdi, r8, r9, r10, r11, r12, r13, r14, r15, flags, slots, stk⟩ := s
+  unfold i64_lt_u
+  x64_simp
+  x64_finish
+
+theorem i64_gt_s_ok : RelRow64 .gt_s i64_gt_s := by
+  refine ⟨by decide, ?_⟩
+  intro s
+  obtain ⟨rax, rcx, rdx, rbx, rsi, rdi, r8, r9, r10, r11, r12, r13, r14, r15, flags, slots, stk⟩ := s
+  unfold i64_gt_s
+  x64_simp
+  x64_finish
+
+theorem i64_gt_u_ok : RelRow64 .gt_u i64_gt_u := by
+  refine ⟨by decide, ?_⟩
+  intro s
+  obtain ⟨rax, rcx, rdx, rbx, rsi, rdi, r8, r9, r10, r11, r12, r13, r14, r15, flags, slots, stk⟩ := s
+  unfold i64_gt_u
+  x64_simp
+  x64_finish
+
+theorem i64_le_s_ok : RelRow64 .le_s i64_le_s := by
+  refine ⟨by decide, ?_⟩
+  intro s
+  obtain ⟨rax, rcx, rdx, rbx, rsi, rdi, r8, r9, r10, r11, r12, r13, r14, r15, flags, slots, stk⟩ := s
+  unfold i64_le_s
+  x64_simp
+  x64_finish
+
+theorem i64_le_u_ok : RelRow64 .le_u i64_le_u := by
+  refine ⟨by decide, ?_⟩
+  intro s
+  obtain ⟨rax, rcx, rdx, rbx, rsi, rdi, r8, r9, r10, r11, r12, r13, r14, r15, flags, slots, stk⟩ := s
+  unfold i64_le_u
+  x64_simp
+  x64_finish
+
+theorem i64_ge_s_ok : RelRow64 .ge_s i64_ge_s := by
+  refine ⟨by decide, ?_⟩
+  intro s
+  obtain ⟨rax, rcx, rdx, rbx, rsi, rdi, r8, r9, r10, r11, r12, r13, r14, r15, flags, slots, stk⟩ := s
+  unfold i64_ge_s
+  x64_simp
+  x64_finish
+
+theorem i64_ge_u_ok : RelRow64 .ge_u i64_ge_u := by
+  refine ⟨by decide, ?_⟩
+  intro s
+  obtain ⟨rax, rcx, rdx, rbx, rsi, rdi, r8, r9, r10, r11, r12, r13, r14, r15, flags, slots, stk⟩ := s
+  unfold i64_ge_u
+  x64_simp
+  x64_finish
+
+theorem i64_eqz_ok : EqzRow64 i64_eqz := by
+  intro s
+  obtain ⟨rax, rcx, rdx, rbx, rsi, rdi, r8, r9, r10, r11, r12, r13, r14, r15, flags, slots, stk⟩ := s
+  unfold i64_eqz
+  x64_simp
+  x64_finish
+
+theorem i64_clz_illformed : Illformed i64_clz := by
+  intro s
+  obtain ⟨rax, rcx, rdx, rbx, rsi, rdi, r8, r9, r10, r11, r12, r13, r14, r15, flags, slots, stk⟩ := s
+  unfold i64_clz
+  x64_simp
+
+/-- the full statement for `i64.clz` is false of the emitted template (it is not even encodable: GNU as rejects it) -/
+theorem i64_clz_full_false : ¬ UnRow64 .clz i64_clz := illformed_not_un64 _ i64_clz_illformed
+
+theorem i64_ctz_illformed : Illformed i64_ctz := by
+  intro s
+  obtain ⟨rax, rcx, rdx, rbx, rsi, rdi, r8, r9, r10, r11, r12, r13, r14, r15, flags, slots, stk⟩ := s
+  unfold i64_ctz
+  x64_simp
+
+/-- the full statement for `i64.ctz` is false of the emitted template (it is not even encodable: GNU as rejects it) -/
+theorem i64_ctz_full_false : ¬ UnRow64 .ctz i64_ctz := illformed_not_un64 _ i64_ctz_illformed
+
+theorem i64_popcnt_illformed : Illformed i64_popcnt := by
+  intro s
+  obtain ⟨rax, rcx, rdx, rbx, rsi, rdi, r8, r9, r10, r11, r12, r13, r14, r15, flags, slots, stk⟩ := s
+  unfold i64_popcnt
+  x64_simp
+
+/-- the full statement for `i64.popcnt` is false of the emitted template (it is not even encodable: GNU as rejects it) -/
+theorem i64_popcnt_full_false : ¬ UnRow64 .popcnt i64_popcnt := illformed_not_un64 _ i64_popcnt_illformed
+
+theorem i32_wrap_i64_ok : WrapRow i32_wrap_i64 := by
+  intro s
+  obtain ⟨rax, rcx, rdx, rbx, rsi, rdi, r8, r9, r10, r11, r12, r13, r14, r15, flags, slots, stk⟩ := s
+  unfold i32_wrap_i64
+  x64_simp
+  x64_finish
+
+theorem i64_extend_i32_s_ok : ExtSRow i64_extend_i32_s := by
+  intro s
+  obtain ⟨rax, rcx, rdx, rbx, rsi, rdi, r8, r9, r10, r11, r12, r13, r14, r15, flags, slots, stk⟩ := s
+  unfold i64_extend_i32_s
+  x64_simp
+  x64_finish
+
+theorem i64_extend_i32_u_ok : ExtURow i64_extend_i32_u := by
+  intro s
+  obtain ⟨rax, rcx, rdx, rbx, rsi, rdi, r8, r9, r10, r11, r12, r13, r14, r15, flags, slots, stk⟩ := s
+  unfold i64_extend_i32_u
+  x64_simp
+  x64_finish
+
+theorem select_i32_ok : SelectRow32 select_i32 select_i32_c := by
+  refine ⟨by decide, by decide, by decide, ?_⟩
+  intro s
+  obtain ⟨rax, rcx, rdx, rbx, rsi, rdi, r8, r9, r10, r11, r12, r13, r14, r15, flags, slots, stk⟩ := s
+  unfold select_i32 select_i32_c
+  x64_simp
+  x64_finish
+
+theorem select_i64_ok : SelectRow64 select_i64 select_i64_c := by
+  refine ⟨by decide, by decide, by decide, ?_⟩
+  intro s
+  obtain ⟨rax, rcx, rdx, rbx, rsi, rdi, r8, r9, r10, r11, r12, r13, r14, r15, flags, slots, stk⟩ := s
+  unfold select_i64 select_i64_c
+  x64_simp
+  x64_finish
+
+/-- hypotheses of the weakened rows are satisfiable -/
+example : ¬ ((5#32 : BitVec 32) = BitVec.intMin 32 ∧ (3#32 : BitVec 32) = -1) := by decide
+end WaVerif.C02.Rows
